@@ -24,7 +24,7 @@ def run(run):
             run.stream("c17", 20000, seed_offset=k)
     return run.finish(
         level="proof",
-        rule="temporary tables of 0-400 rows (ties, NULLs, single-row and many-row partitions, keys equal across types), --cpu 1-8; every analytic function (ROW_NUMBER, RANK, DENSE_RANK, CUME_DIST, PERCENT_RANK, NTILE incl. n > rows and n < 1, FIRST/LAST/NTH_VALUE, LAG, LEAD with offsets/defaults, COUNT/COUNT(*)/SUM/AVG/MIN/MAX/MEDIAN/STDEV(P)/VAR(P) incl. DISTINCT, LISTAGG, user-defined aggregates with and without extra argument) x PARTITION BY 0-2 columns x ORDER BY 0-2 items with directions and NULLS FIRST/LAST (+ unique id item in most cases; otherwise only tie-order-insensitive functions) x every ROWS frame form of the grammar (incl. empty and inverted frames) x IGNORE NULLS; non-trivial = distinct (function, frame form, IGNORE NULLS, #partition columns, #order items, uniqueness, partition-count band, row band) signature",
+        rule="temporary tables of 0-400 rows (ties, NULLs, single-row and many-row partitions, keys equal across types), --cpu 1-8; every analytic function (ROW_NUMBER, RANK, DENSE_RANK, CUME_DIST, PERCENT_RANK, NTILE incl. n > rows and n < 1, FIRST/LAST/NTH_VALUE, LAG, LEAD with offsets/defaults, COUNT/COUNT(*)/SUM/AVG/MIN/MAX/MEDIAN/STDEV(P)/VAR(P) incl. DISTINCT, LISTAGG, user-defined aggregates with and without extra argument) x PARTITION BY 0-2 columns x ORDER BY 0-2 items with directions and NULLS FIRST/LAST (+ unique id item in most cases; otherwise only tie-order-insensitive functions) x every ROWS frame form of the grammar (incl. empty and inverted frames) x IGNORE NULLS; sort / partition columns holding equal numbers in mixed notation (1, 1.0, '1', ' 1 ', '1e0'; 0, '-0.0') in every order inside the tie group; 2-3 analytic functions in one select list compared per row with each function alone (analytic:multi_function_inconsistent); analytic functions over derived tables / CTEs that themselves contain an analytic function, with permuted and renamed select lists, through DISTINCT / GROUP BY / LIMIT-OFFSET, checked like every case against the derived rows and against the same query over a plain table holding those rows (analytic_over_derived_eq_over_materialised); non-trivial = distinct (function, frame form, IGNORE NULLS, #partition columns, #order items, uniqueness, partition-count band, row band) signature",
         trusted_base=BASE_TRUST + ["separate real ORDER BY query as the reference order (C07)", "reference key normalisation for partitions (C04)"],
         checker_cmd="cd /verif/lean && lake build Csvq.Props.C17 && lake env lean <#print axioms for every theorem>",
     )
